@@ -28,6 +28,68 @@ CHECK_TEXT = {
     },
 }
 
+
+_E_NOTE = ("Trusted: the SIM-E harness (sims/sime): SimHardware, the probe UOD built with the real UodBuilder, the simulated "
+           "clock/uuid proxies, the harness's own reading of generated methods (sims/sime/model.py) and each oracle's stated "
+           "tolerances (DESIGN.md 4 and appendix A). Requests enter through the real EngineMessageHandlers, ticks through "
+           "Engine.tick. Sampling, not proof; known findings listed in known_findings.json are suppressed by (kind, site) only.")
+
+
+def _e(text, ref, tech="deterministic simulation of the real engine tick by tick (simulated clock, hardware, request stream); seeded search with invariant oracles"):
+    return {"technique": tech, "design_ref": ref, "level_text": text, "level_note": _E_NOTE}
+
+
+CHECK_TEXT.update({
+    "C01": _e("Seeded live-edit histories at drawn ticks against the real Engine/MethodManager/HotSwapVisitor: no effect token outside Alarm/macro bodies twice, reported method state monotone across accepted edits, started-line edits rejected without side effect, legal edits accepted, appended lines run. On this tree two genuine defects (state lost, re-execution) are known findings, so the check currently decides the remaining clauses.", "DESIGN.md 4.C01"),
+    "C02": _e("Generated methods without requests run to quiescence: tokens outside repeating scopes at most once, siblings in source order, trailing whitespace never passed, and in the interrupt-free fragment the effect sequence equals an independent reference walk.", "DESIGN.md 4.C02"),
+    "C03": _e("Thresholds (s/min/h/L/CV under Base changes) and Waits at exact 0.1 s ticks: an instruction never starts before its scope clock, as the interpreter saw it, reached the threshold; the instruction after Wait: d starts within [d, d+0.1 s].", "DESIGN.md 4.C03"),
+    "C04": _e("Watch/Alarm conditions are re-evaluated by the harness every tick: a body activation needs a tick with the condition true (or an accepted force); Watch bodies activate once; no activation after an accepted cancel.", "DESIGN.md 4.C04"),
+    "C05": _e("Active blocks rebuilt from emitter events after every tick: single ancestor chain, Block tag = innermost, End block ends the innermost, nothing ended twice.", "DESIGN.md 4.C05"),
+    "C06": _e("Control-command sequences with ticks in between: System State, control-state message and Run Id agree after every tick; a user command is accepted exactly when valid in the state at request time; run ids fresh.", "DESIGN.md 4.C06"),
+    "C07": _e("Clock deltas per tick under arbitrary increments and control sequences: Process/Run Time zero at run start and monotone, Process Time only over Running ticks, Block/Scope Time not while Paused/Holding/error-paused.", "DESIGN.md 4.C07"),
+    "C08": _e("Register memory of the simulated hardware after engine start and after every tick: safe-valued outputs hold the safe value before the first run, after Stop and during pauses; no other write while Stopped. Two genuine defects are known findings.", "DESIGN.md 4.C08"),
+    "C09": _e("Shadow model of the outputs before each Pause over several runs per engine life time: Unpause restores exactly those values; an Unpause after an error pause changes nothing.", "DESIGN.md 4.C09"),
+    "C10": _e("Stop/Restart at drawn ticks with long-running, overlapping and failing commands: no command instance left, run-stopped run log conclusive for every executed UOD command, simulations and run id cleared.", "DESIGN.md 4.C10"),
+    "C11": _e("Probe-command life cycle from the callbacks: init once before the first exec, finalize exactly once, never two live instances of one command or of an overlap group, every initialized instance finalized after the final Stop.", "DESIGN.md 4.C11"),
+    "C12": _e("Cancel/force requests at drawn ticks on offered, arbitrary and unknown run-log items: offered requests accepted and effective, others change nothing. Five genuine defects of cancel/force are known findings.", "DESIGN.md 4.C12"),
+    "C13": _e("Malformed methods, junk injections, unknown commands and request storms: no exception leaves Engine.tick or a request handler; a failing instruction pauses with Method Status Error and a failed line; Stop stays effective.", "DESIGN.md 4.C13"),
+    "C14": _e("Injected snippets at drawn ticks, around pauses/holds and before live edits: each injected Mark takes effect at most once and never in a tick entered Paused/Holding; accepted injections into a Running run take effect.", "DESIGN.md 4.C14"),
+    "C15": _e("Run log produced every few ticks in every SIM-E profile: producible, sorted, distinct ids, end >= start, concluded items have an end and are not offered.", "DESIGN.md 4.C15"),
+    "C16": _e("Every queued tag update inspected after its tick: tick_time within [engine start, end of this tick's span), per tag non-decreasing, a value changed in this tick stamped in this tick.", "DESIGN.md 4.C16"),
+    "C20": _e("The editor's semantic analysis, built from the definitions the engine publishes, gates generated methods; accepted ones are executed with trajectories that drive all conditions; no run-time failure by unknown name, rejected argument or incompatible units. Weakest fit of the family (programs x configurations); no faults involved.", "DESIGN.md 4.C20",
+              "deterministic simulation as executor behind the analyzer gate (virtual time makes every accepted line reachable)"),
+    "C36": _e("Reports drained through the real message builder after drawn numbers of ticks: every tag whose reported value differs since the previous report is present with its current value; no duplicates; snapshot complete.", "DESIGN.md 4.C36"),
+    "C39": _e("Archiver on an in-memory file system with short data-log intervals and Mark texts containing separators, quotes and escape characters: every row read back with the archiver's dialect equals the row handed to the writer and has the header's columns.", "DESIGN.md 4.C39"),
+    "C41": _e("Macro-heavy methods: per completed call the body tokens of the latest executed definition appear once; RecursionError never escapes a tick.", "DESIGN.md 4.C41"),
+    "C27": {"technique": "deterministic simulation: real EngineRunner on a virtual-time asyncio loop over a faulty simulated link; produce/attempt/deliver history checked at quiescence",
+            "design_ref": "DESIGN.md 3 SIM-R, 4.C27",
+            "level_text": "Seeded link-fault schedules (outages up to 130 s, sends lost before/after delivery, connect refusals, latency spread) with engine events at drawn times; after faults stop and 75 simulated seconds: nothing produced while disconnected is lost, the buffer is empty in steady state, duplicates only after a failed attempt, one sequence number per message, buffered run data before the run's stop notification. Four genuine defects are known findings.",
+            "level_note": "Trusted: the link model (a failed send kills the connection until the next connect), the recording far end, the virtual-time loop (FIFO for callbacks ready at the same instant). Real: EngineRunner, message builder, engine, serialization."},
+    "C40": {"technique": "deterministic simulation of two real threads: baton-passing scheduler with sys.settrace line pre-emption; outcome compared with both serial orders",
+            "design_ref": "DESIGN.md 3 SIM-T, 4.C40",
+            "level_text": "One tick against one request (edit, inject, control command, cancel, force) under seeded pre-emption points inside the tick and the request; no exception in either thread and an observable outcome equal to request-before-tick or tick-before-request, each recomputed from the same prefix. No repo hook: the trace hook gives finer pre-emption than hand-placed yield points.",
+            "level_note": "Trusted: the scheduler and the lock replacement (same mutual exclusion as threading.Lock, yields instead of blocking); pre-emption only at line boundaries of the traced repo files."},
+})
+_A_NOTE = ("Trusted: scripted engines follow the engine protocol; in-memory SQLite is the only state that survives a restart; "
+           "commits are not faulted; virtual-time loop with FIFO ready queue. Real: Aggregator, handlers, dispatcher entry points, "
+           "repositories, models, publisher.")
+
+
+def _a(text, ref):
+    return {"technique": "deterministic simulation: real aggregator on in-memory SQLite under scripted engines / front-end connections on a virtual-time loop; history and database oracles",
+            "design_ref": ref, "level_text": text, "level_note": _A_NOTE}
+
+
+CHECK_TEXT.update({
+    "C28": _a("Run histories with engine disconnect + re-register, graceful restart and crash restart at drawn points: the run continues under the same id, later tag data lands in its plot log, one RecentRun after stop. Crash restarts are a known finding (state is persisted only on disconnect/shutdown).", "DESIGN.md 3 SIM-A, 4.C28"),
+    "C29": _a("PlotLogEntryValue rows per (run, tag): strictly increasing times, batches further apart than the data log interval, every stored value was reported at or before its time.", "DESIGN.md 4.C29"),
+    "C30": _a("RecentRun and PlotLog rows per run id under duplicated / resent start and stop notifications, disconnects and restarts: exactly one each.", "DESIGN.md 4.C30"),
+    "C31": _a("Groups of 1-3 concurrent saves with drawn engine round-trip latencies and error replies: at most one accepted per base version, version +1 per accepted save.", "DESIGN.md 4.C31"),
+    "C35": _a("Error-log batches with repeats, immediate duplicates and reordered pairs: dup-only runs equal the reference aggregator of the statement; no entry is lost.", "DESIGN.md 4.C35"),
+    "C37": _a("Subscribe / register / unregister / disconnect histories: active_users[unit] equals the registered users with a live connection after every event.", "DESIGN.md 4.C37"),
+    "C38": _a("Engines with name pairs over an alphabet containing the separator and URL-special characters: different pairs never share an id; a registration never takes over a connected id.", "DESIGN.md 4.C38"),
+})
+
 _PURE = "pure function of its arguments - no clock, schedule, fault, crash point or second party can change the outcome, so deterministic simulation has nothing to decide (DESIGN.md section 5)"
 NOT_APPLICABLE = {
     "C17": "parsing totality/structure is a " + _PURE,
@@ -42,13 +104,17 @@ NOT_APPLICABLE = {
     "C34": "CSV export is a function of the stored plot log: " + _PURE,
 }
 
-NOT_YET_BUILT = "planned in DESIGN.md, simulator not built yet at this commit - not claimed"
-for _p in ["C%02d" % i for i in range(1, 42)]:
-    NOT_APPLICABLE.setdefault(_p, NOT_YET_BUILT)
-
 ENGINES = [
     {"name": "simh", "path": "/verif/sims/simh.py", "serves_properties": ["C23", "C24"],
      "kind_free_text": "hardware recovery simulator: real ErrorRecoveryDecorator, scripted faulty device, simulated clock"},
+    {"name": "sime", "path": "/verif/sims/sime/", "serves_properties": ["C01", "C02", "C03", "C04", "C05", "C06", "C07", "C08", "C09", "C10", "C11", "C12", "C13", "C14", "C15", "C16", "C20", "C36", "C39", "C41"],
+     "kind_free_text": "engine tick simulator: real Engine + interpreter + command manager + method manager + message builder/handlers; simulated clock, hardware, uuid, file system"},
+    {"name": "simr", "path": "/verif/sims/simr.py", "serves_properties": ["C27"],
+     "kind_free_text": "runner simulator: real EngineRunner on a virtual-time asyncio loop over a faulty simulated link"},
+    {"name": "sima", "path": "/verif/sims/sima.py", "serves_properties": ["C28", "C29", "C30", "C31", "C35", "C37", "C38"],
+     "kind_free_text": "aggregator simulator: real Aggregator/handlers/repositories on in-memory SQLite under scripted engines and front-end connections"},
+    {"name": "simt", "path": "/verif/sims/simt.py", "serves_properties": ["C40"],
+     "kind_free_text": "two-thread interleaving simulator: baton-passing scheduler with settrace pre-emption around Engine.tick and one request"},
 ]
 
 NOTES = ("All checks: ./check <ID> --tier quick|thorough; exit 0 held / 1 VIOLATION (minimised replay under /verif/replays, "
